@@ -658,6 +658,61 @@ fn main() {
         );
     }
 
+    // ---------------------------------------------------------------- State::call_filter
+    // A host filter that applies another filter by name (`State::call_filter`, what a `map`-like
+    // extension does) gets the result the template would get: marked safe when that filter is
+    // registered as safe (or is the built-in `safe`), not marked when it builds a new string. The
+    // mark is read off with `Value::is_safe` inside the callback, and the value handed on is printed
+    // under autoescaping. (Seeded change C01-14 dropped the marking step of call_filter.)
+    {
+        fn via(val: Value, kwargs: Kwargs, state: &State) -> TeraResult<Value> {
+            let name = kwargs.must_get::<String>("f")?;
+            state.call_filter(&name, &val, Kwargs::default())
+        }
+        fn via_mark(val: Value, kwargs: Kwargs, state: &State) -> TeraResult<String> {
+            let name = kwargs.must_get::<String>("f")?;
+            let r = state.call_filter(&name, &val, Kwargs::default())?;
+            Ok(if r.is_safe() { "S".to_string() } else { "P".to_string() })
+        }
+        // (filter applied through the callback, mark of its result, printed text for the datum `<&>`)
+        let cases: [(&str, &str, &str); 5] = [
+            ("fecho_safe", "S", "<&>"),
+            ("safe", "S", "<&>"),
+            ("fecho_str", "P", "&lt;&amp;&gt;"),
+            ("upper", "P", "&lt;&amp;&gt;"),
+            ("escape_html", "P", "&amp;lt;&amp;amp;&amp;gt;"),
+        ];
+        run.family(
+            Family::new("call_filter-marks", cases.len() as u64, "5 filters (registered safe, the built-in safe, a user filter building a string, upper, escape_html) applied by a host filter through State::call_filter to the datum <&>: the mark of the result inside the callback (Value::is_safe) and the text printed from the value handed on, in an autoescaped template and through render_str(.., true), at top level and inside an included template"),
+            |item, acc: &mut Acc| {
+                let (f, mark, text) = cases[item as usize];
+                let mut t = Tera::default();
+                register(&mut t);
+                t.register_filter("via", via);
+                t.register_filter("via_mark", via_mark);
+                let body = format!("{{{{ d | via_mark(f=\"{f}\") }}}}:{{{{ d | via(f=\"{f}\") }}}}");
+                t.add_raw_templates(vec![("leaf.html", body.as_str()), ("root.html", "{% include \"leaf.html\" %}")]).expect("call_filter templates load");
+                let mut ctx = tera::Context::new();
+                ctx.insert("d", "<&>");
+                let want = format!("{mark}:{text}");
+                for (call, out) in [
+                    ("render(leaf.html)", engine::render(&t, "leaf.html", &ctx)),
+                    ("render(root.html)", engine::render(&t, "root.html", &ctx)),
+                    ("render_str(.., true)", engine::render_str(&t, &body, &ctx, true)),
+                ] {
+                    if out.ok() != Some(want.as_str()) {
+                        acc.violation(
+                            format!("call_filter-mark:{f}"),
+                            format!("{call} of `{body}` with d = \"<&>\" gave {}, expected {want:?} (mark inside the callback : printed text)", out.show()),
+                            || json!({"template": body, "d": "<&>", "call": call, "via": "user filter returning State::call_filter(f, value)", "via_mark": "user filter returning S / P for Value::is_safe of that result"}),
+                        );
+                    }
+                    acc.case(true, out.class());
+                }
+            },
+        );
+    }
+
     // ---------------------------------------------------------------- suffix rule
     // Which templates are autoescaped: "files ending with" one of the configured suffixes
     // (default .html .htm .xml), whether autoescape_on is called before or after adding.
